@@ -192,6 +192,82 @@ def run(ctx):
     for key, items in sorted(groups.items()):
         ctx.violation(key, f"{key}: {len(items)} PDUs, first frame {bytes(items[0]['frame']).hex()[:120]} err={items[0]['err']}",
                       {"count": len(items), "first": items[:2]})
+    detect_phase(ctx, samples)
+
+
+DECODERS = {"HyteraSimpleTransportReliabilityProtocol": "HSTRP", "HyteraRadioNetworkProtocol": "HRNP", "RealTimeTransportProtocol": "RTP",
+            "IpSiteConnectHeartbeat": "IpSiteConnectHeartbeat", "IpSiteConnectProtocol": "IPSC", "HyteraDmrApplicationProtocol": "HDAP",
+            "Mmdvm2020": "MMDVM"}
+KAITAI_FILES = {"hytera_simple_transport_reliability_protocol": "HSTRP", "hytera_radio_network_protocol": "HRNP",
+                "real_time_transport_protocol": "RTP", "ip_site_connect_heartbeat": "IpSiteConnectHeartbeat", "ip_site_connect_protocol": "IPSC",
+                "hytera_dmr_application_protocol": "HDAP"}
+
+
+def detect_phase(ctx, samples):
+    """growth beyond the statement (spec/Detect.tla): protocol detection of utils/parsing.py as a decision table; the table is
+    compared with the decoder the real functions select (drift) and the datagrams the library serialises itself are followed
+    through it (observations outside the listed properties)"""
+    import contextlib
+    import io
+    import random
+    import traceback
+    from harness.catalogue import harvest
+    from okdmr.dmrlib.utils.parsing import parse_hytera_data, try_parse_packet
+    rng = random.Random(ctx.seed + 5)
+
+    def selected(d):
+        try:
+            return DECODERS.get(type(parse_hytera_data(d)).__name__, "skip")
+        except BaseException as ex:  # noqa: the decoder that was selected may reject the datagram
+            files = [os.path.basename(f.filename)[:-3] for f in traceback.extract_tb(ex.__traceback__)]
+            for f in files:                   # the outermost decoder is the one that was selected
+                if f in KAITAI_FILES:
+                    return KAITAI_FILES[f]
+            return "IndexError" if isinstance(ex, IndexError) and files and files[-1] == "parsing" else "skip"
+
+    def first(d):
+        with contextlib.redirect_stderr(io.StringIO()), contextlib.redirect_stdout(io.StringIO()):
+            r = try_parse_packet(d)
+        return "failed" if r is None else DECODERS.get(type(r).__name__, "skip")
+
+    obs = []
+
+    def add(d, kind=""):
+        obs.append({"d": list(d), "hytera": selected(d), "first": first(d), "kind": kind})
+        ctx.count(core.digest(["detect", list(d)]))
+
+    for s_ in samples[:: max(1, len(samples) // 300)]:
+        if s_["frame"]:
+            add(bytes(s_["frame"]), "HDAP")
+        if s_["hrnp"]:
+            add(bytes(s_["hrnp"]), "HRNP")
+        if s_["hstrp"]:
+            add(bytes(s_["hstrp"]), "HSTRP")
+    for f in [x for x in harvest("hytera/test_hytera_ipsc.py") + harvest("etsi/layer2/test_burst.py") if len(x) == 72 and x[2:4] == b"ZZ"][:40]:
+        add(f, "IPSC")
+    for f0 in (0, 2, 8, 9, 17, 50, 90, 126, 128, 136, 145, 191, 192, 255):
+        for n in (0, 1, 2, 7, 12, 20, 21, 22, 40, 72):
+            for eq in (False, True):
+                d = bytearray(rng.getrandbits(8) for _ in range(n))
+                if n >= 1:
+                    d[0] = f0
+                if n >= 22:
+                    d[21] = d[20] if eq else d[20] ^ 1
+                add(bytes(d))
+    for pre in (b"USRP", b"DMRD", b"RPTL", b"RPTPING", b"MSTPONG", b"MSTNAK", b"RPTACK", b"XXXX", b"ZZZZ"):
+        add(pre + bytes(rng.getrandbits(8) for _ in range(rng.choice([0, 4, 51]))))
+    path = os.path.join(ctx.rundir, "c12_detect.json")
+    json.dump({"obs": obs}, open(path, "w"))
+    res = core.run_tlc(ctx, "MC_Detect", "MC_Detect.cfg", env={"DATA_FILE": path}, timeout=900, jvm=("-Xss64m",))
+    if not res.ok or res.distinct < len(obs):
+        raise core.MachineryError(f"TLC did not follow all datagrams through the detection table ({res.distinct} < {len(obs)})")
+    ctx.note("detection_datagrams", len(obs))
+    design = sorted({v["why"] for v in core.parse_printed_json(res, tag="DESIGN")})
+    ctx.note("detection_design_findings", design)
+    for v in core.parse_printed_json(res, tag="DRIFT"):
+        ctx.model_drift(f"Detect: datagram {bytes(obs[v['idx']]['d']).hex()[:24]}...: {v['why']}")
+    for v in core.parse_printed_json(res, tag="OUTSIDE"):
+        ctx.outside(v["why"])
 
 
 def replay(ctx, rec):
